@@ -26,6 +26,8 @@ blind to the successor's length; iterating the index list in tobytes is a violat
 insert() lets the index repeat a position.
 
 Round 6: both bisects used and the chunk at the position compared with neither neighbour.
+Round 7: appending at the end of the begins list is the sorted slot when the path knows that the
+position is not below the last begin.
 """
 import ast
 
